@@ -14,7 +14,7 @@ fn b64(a: &str) -> Result<[u8; 64], String> {
 
 /// field stack machine. tokens:
 ///   <hex64>  push Fe::from_bytes ; zero one sqrtm1 d d2 (constants)
-///   add sub mul (binary, operands a b -> a op b) ; neg sq sq2 inv pow25523 ; sqn:<k>
+///   add sub mul (binary, operands a b -> a op b) ; neg sq sq2 inv pow25523 ; sqn:<k> ; ms121666 ms9 (hooks: mul_small)
 ///   dup swap drop
 ///   observations (do not pop): bytes isneg isnz ; eq (binary, pops nothing: top == second)
 fn fe_machine(toks: &[&str]) -> R {
@@ -66,6 +66,14 @@ fn fe_machine(toks: &[&str]) -> R {
             "pow25523" => {
                 let a = pop!();
                 st.push(a.pow25523())
+            }
+            "ms121666" => {
+                let a = pop!();
+                st.push(cryptoxide::curve25519::verif::fe_mul_small_121666(&a))
+            }
+            "ms9" => {
+                let a = pop!();
+                st.push(cryptoxide::curve25519::verif::fe_mul_small_9(&a))
             }
             "dup" => {
                 let a = st.last().ok_or("fe-stack-underflow")?.clone();
@@ -299,6 +307,24 @@ pub fn dispatch(_m: &mut Machine, name: &str, args: &[&str]) -> Option<R> {
                 Some(s) => format!("T.{}", hex(&s.to_bytes())),
                 None => "F".to_string(),
             })
+        })(),
+        // hooks: (a*b + c) mod L, and the signed digit recodings used by the two scalar multiplications
+        "sc_muladd" => (|| {
+            need(args, 3)?;
+            let a = Scalar::from_bytes(&b32(args[0])?);
+            let b = Scalar::from_bytes(&b32(args[1])?);
+            let c = Scalar::from_bytes(&b32(args[2])?);
+            Ok(hex(&cryptoxide::curve25519::verif::scalar_muladd(&a, &b, &c).to_bytes()))
+        })(),
+        "sc_nibbles" => (|| {
+            need(args, 1)?;
+            let d = cryptoxide::curve25519::verif::scalar_nibbles(&Scalar::from_bytes(&b32(args[0])?));
+            Ok(hex(&d.iter().map(|x| *x as u8).collect::<Vec<u8>>()))
+        })(),
+        "sc_slide" => (|| {
+            need(args, 1)?;
+            let d = cryptoxide::curve25519::verif::scalar_slide(&Scalar::from_bytes(&b32(args[0])?));
+            Ok(hex(&d.iter().map(|x| *x as u8).collect::<Vec<u8>>()))
         })(),
         "sc_roundtrip" => (|| {
             need(args, 1)?;
